@@ -171,7 +171,7 @@ def with_budget(j):
     return {k: v for k, v in j.items() if v is not None}
 
 
-def run_jobs(ctx, binp, jobs, nproc=None):
+def run_jobs(ctx, binp, jobs, nproc=None, _second=False):
     """returns id -> observation.  Jobs are spread over several harness processes; a process that reports a timeout
     is restarted on the jobs after the one that timed out.  Jobs carrying `threads` run in a process whose rayon pool
     has that many threads (RAYON_NUM_THREADS)."""
@@ -235,7 +235,27 @@ def run_jobs(ctx, binp, jobs, nproc=None):
         for out in ex.map(one, chunks):
             res.update(out)
     ctx.log(f"   harness c12 jobs: {len(jobs)} jobs, {len(res)} observations in {time.time()-t0:.1f}s ({len(chunks)} processes)")
+    # every scheduled job ends in an observation: jobs a process never reached (circuit breaker after 4 time-outs, or its restarts ran out)
+    # are run once more, each in a process of its own; what is still missing then is recorded as `unchecked` (reported by unchecked_jobs)
+    missing = [j for j in jobs if j["id"] not in res]
+    if missing and not _second:
+        ctx.log(f"   {len(missing)} scheduled job(s) without an observation: running each of them alone")
+        res.update(run_jobs(ctx, binp, [dict(j, heavy=True) for j in missing], nproc=nproc, _second=True))
+    for j in jobs:
+        if j["id"] not in res:
+            res[j["id"]] = {"kind": "unchecked", "id": j["id"], "reason": "no observation from the harness, also when the job was run alone"}
     return res
+
+
+def unchecked_jobs(ctx, C, obs):
+    """a scheduled job without an observation is a check error, reported explicitly (never a silent skip); the entries are then removed so
+    that the clauses that needed them are skipped knowingly"""
+    un = sorted(i for i, o in obs.items() if isinstance(o, dict) and o.get("kind") == "unchecked")
+    if un:
+        ctx.violation("S5", f"check error: {len(un)} scheduled harness job(s) ended without an observation (jobs {un[:8]}): the clauses that "
+                            "needed them are unchecked on this run", {"kind": "unchecked_jobs"},
+                      {"jobs": [job_of(C, i) for i in un[:20]]}, found_input=False)
+    return {i: o for i, o in obs.items() if i not in un}
 
 
 # ------------------------------------------------------------------------------------------------ case generation
@@ -303,7 +323,9 @@ def method_accuracy(m, f, a, b):
     S = f.scale(a, b)
     base = TOL12 * max(S, 1e-300)
     if m["m"] == "simpson":
-        n = m["divs"] - 2          # from the REQUESTED divs (C12_norm_bounds: the code uses between divs - 2 and divs divisions)
+        # the division count the property grants for the REQUESTED divs (a formula of the specification, not read off the code): divs rounded up
+        # to even, minus 2 — the simpson_norm of C12_simpson_expi_bound (C12_norm_bounds: between divs - 2 and divs)
+        n = m["divs"] + m["divs"] % 2 - 2
         if isinstance(f, Poly):
             if len(f.cs) <= 4:
                 return base, "exact(degree<=3)"
@@ -640,18 +662,21 @@ def build_cases(ctx, rng, deep=False, counts=None):
             ic = C.int1(m, u0, u0 + 1.0, Poly([(1.0, 1.0)]), trace=True)
             C.checks.append({"kind": "nest2d", "id": j["id"], "ig": ig, "ic": ic, "method": m, "which": which, "rect": rect, "g": g})
     # Gauss-Kronrod 2-D (finding F5d: nested adaptive integration whose convergence test ignores the requested tolerance)
-    gk2 = [(Poly([(0.0, 0.0), (1.0, 0.0)]), Poly([(0.0, 0.0), (1.0, 0.0)]), LIMIT_2D_MS),
-           (Poly([(0.0, 0.0)] * 3 + [(1.0, 0.0)]), Poly([(0.0, 0.0)] * 2 + [(1.0, 0.0)]), LIMIT_2D_MS)]
-    # a fixed complex cubic x quadratic (seed-independent): > 10^7 integrand evaluations on the pinned tree
+    # the integrand class goes into the signature of a time violation: the two monomial products finish well inside the evaluation budget
+    # (919k and 165k evaluations on the pinned tree vs 5e6) and must not be absorbed by the known finding if a regression pushes them over
+    gk2 = [(Poly([(0.0, 0.0), (1.0, 0.0)]), Poly([(0.0, 0.0), (1.0, 0.0)]), LIMIT_2D_MS, "monomial_x_times_y"),
+           (Poly([(0.0, 0.0)] * 3 + [(1.0, 0.0)]), Poly([(0.0, 0.0)] * 2 + [(1.0, 0.0)]), LIMIT_2D_MS, "monomial_x3_times_y2")]
+    # a fixed complex cubic x quadratic (seed-independent): > 10^7 integrand evaluations on the pinned tree; the check stops it at its budget, 5e6
     r5 = random.Random(5)
     gk2.append((Poly([(r5.uniform(-1, 1), r5.uniform(-1, 1)) for _ in range(4)]),
-                Poly([(r5.uniform(-1, 1), r5.uniform(-1, 1)) for _ in range(3)]), 90_000))   # ended by the evaluation budget, not the clock
-    for p, q, lim in gk2:
+                Poly([(r5.uniform(-1, 1), r5.uniform(-1, 1)) for _ in range(3)]), 90_000, "complex_cubic_times_quadratic"))   # ended by the evaluation budget
+    for p, q, lim, fclass in gk2:
         a, b, c, d = 0.0, 1.0, 0.0, 1.0
         m = {"m": "gk", "tol": hx(1e-6), "depth": 1000}
         j = {"id": C.jid("t"), "op": "int2", "method": m, "a": hx(a), "b": hx(b), "c": hx(c), "d": hx(d),
              "f": {"t": "sep", "p": p.job(), "q": q.job()}, "limit_ms": lim, "heavy": True}
         j["L1_abs"] = l1_norm(p, a, b) * l1_norm(q, c, d)
+        j["fclass"] = fclass
         C.add(j)
         ix, iy = C.int1(m, a, b, p), C.int1(m, c, d, q)
         C.checks.append({"kind": "separable2", "id": j["id"], "ix": ix, "iy": iy, "method": m, "rect": [a, b, c, d], "p": p, "q": q,
@@ -720,7 +745,9 @@ def gk_regime(m, l1):
     2.70 panics; with max_depth >= 1000 no panic for int|f| <= 12.2, panics from 21.6.  The `small_integrand` regime keeps a factor 2
     below those thresholds; a panic inside it is NOT the known finding."""
     depth = m.get("depth", 0)
-    if l1 is not None and ((depth >= 1000 and l1 < 6.0) or (depth >= 200 and l1 < 1.2)):
+    if l1 is None:
+        return "unclassified"      # no int|f| recorded for this job: never matched by the known finding
+    if (depth >= 1000 and l1 < 6.0) or (depth >= 200 and l1 < 1.2):
         return "small_integrand"
     return "iteration_budget"
 
@@ -766,7 +793,8 @@ def outcome_problem(ctx, C, o, jid, m, dim, what_input):
         msg = (o.get("panic") or "")
         if "evaluation budget exceeded" in msg:
             ctx.violation("S5", f"{call_text(m, dim)} called the integrand more than {EVAL_BUDGET[dim]} times on a smooth integrand ({what_input}): "
-                                f"not bounded work", dict(msig(m), kind="time", dim=dim, cause="evaluation_budget_exceeded"),
+                                f"not bounded work", dict(msig(m), kind="time", dim=dim, cause="evaluation_budget_exceeded",
+                                                          integrand=job.get("fclass", "unclassified")),
                           {"job": job, "observation": o})
             return False
         sg = dict(msig(m), kind="panic", dim=dim, cause=panic_cause(msg))
@@ -1390,7 +1418,12 @@ def run(ctx):
         cases_ok = proved or coq_build(ctx, ["Proofs/C12_cases.vo"], timeout=900)[0]
         cert_ok = proved or coq_build(ctx, ["Proofs/C12_gl_cert.vo"], timeout=900)[0]
     rng = random.Random(ctx.seed)
-    obs0 = run_jobs(ctx, binp, count_jobs(), nproc=4)
+    cj = count_jobs()
+    obs0 = run_jobs(ctx, binp, cj, nproc=4)
+    un0 = sorted(i for i, o in obs0.items() if o.get("kind") == "unchecked")
+    if un0:
+        ctx.violation("S5", f"check error: {len(un0)} division-count probe(s) ended without an observation (jobs {un0[:8]})",
+                      {"kind": "unchecked_jobs", "what": "division_count_probes"}, {"jobs": [j for j in cj if j["id"] in un0][:20]}, found_input=False)
     counts = {int(k[1:]): o["evals"] - 1 for k, o in obs0.items() if o.get("ok") and o.get("evals", 0) > 1}
     NODE_COUNTS.update(counts)
     # the division count read off the running code must stay within 2 of the requested one (C12_norm_bounds)
@@ -1402,7 +1435,7 @@ def run(ctx):
                       {"call": f"Integrator::Simpson {{ divs: {off[0][0]} }}.integrate(|x| 0, 0., 1.)", "observed_divisions": off[:20]})
     C = build_cases(ctx, rng, counts=counts)
     obs = run_jobs(ctx, binp, C.jobs)
-    obs = retry_timeouts(ctx, binp, C, obs)
+    obs = unchecked_jobs(ctx, C, retry_timeouts(ctx, binp, C, obs))
     try:
         os.makedirs(os.path.join(COQ, "Cases", "C12"), exist_ok=True)
         with open(os.path.join(COQ, "Cases", "C12_obs.json"), "w") as fo:
@@ -1444,7 +1477,7 @@ def run(ctx):
                         need.add(c[key])
                 need.update(c.get("ids", []))
             C2.jobs = [j for j in C2.jobs if j["id"] in need and not j.get("heavy")]
-            obs2 = retry_timeouts(ctx, binp, C2, run_jobs(ctx, binp, C2.jobs))
+            obs2 = unchecked_jobs(ctx, C2, retry_timeouts(ctx, binp, C2, run_jobs(ctx, binp, C2.jobs)))
             oracle(ctx, C2, obs2)
             if any(v["found_input"] and not baseline(v) for v in ctx.violations):
                 break
